@@ -148,7 +148,7 @@ pub fn prop() -> Prop {
         id: "C03",
         check,
         describe,
-        rule: "generated games (all families incl. deep chains, shared wide infosets, rare chance, dominated/duplicated actions; half of them tiny, where the envelope bites) x the five presets x T log-uniform in 1..3000 (thorough: ..30000 on games of <= 60 nodes), and on games of <= 30 nodes one case in five with T in 30000..300000 (thorough ..1000000) x {1, 2..16 threads}; oracle: exactly the envelopes of the statement with D = payoff range, N = num_infosets() (cross-checked), A = max arity: vanilla per-player bound <= 2DN sqrt(A)/sqrt(T); true regret (independent oracle) <= 6DN(sqrt(A)+1/sqrt(T))/sqrt(T). Non-trivial = the uniform profile violates the second envelope at this T (a solver that does nothing would fail); distinct by (tree, preset, T, threads).",
+        rule: "generated games (all families incl. deep chains, shared wide infosets, rare chance, dominated/duplicated actions; half of them tiny, where the envelope bites) x the five presets x T log-uniform in 1..3000 (thorough: ..30000 on games of <= 60 nodes), and on games of <= 30 nodes one case in five with T in 30000..300000 (thorough ..1000000) x {1 (three cases in four), 2-3, 2..16 threads}; oracle: exactly the envelopes of the statement with D = payoff range, N = num_infosets() (cross-checked), A = max arity: vanilla per-player bound <= 2DN sqrt(A)/sqrt(T); true regret (independent oracle) <= 6DN(sqrt(A)+1/sqrt(T))/sqrt(T). Non-trivial = the uniform profile violates the second envelope at this T (a solver that does nothing would fail); distinct by (tree, preset, T, threads).",
         max_len: 700,
         cases_quick: 40_000,
         cases_thorough: 500_000,
